@@ -5,6 +5,7 @@ binding:   (a) replay of the complete LTS emitted by TLC into debian.deb822.Deb8
            (b) validation of recorded histories by spec/TraceOrderedMap.tla
 """
 import json
+import random
 
 import core
 
@@ -104,9 +105,9 @@ class Conc:
 
 # ------------------------------------------------------------------ driving the real object
 
-def build(kind, model_state, conc):
-    """construct a Deb822 in the given model state by one of the three start kinds"""
-    from debian.deb822 import Deb822
+def build(kind, model_state, conc, clsname="Deb822"):
+    """construct a paragraph object in the given model state by one of the start kinds"""
+    Deb822 = cls_of(clsname)
     pairs = [(conc.key(e["n"], e["s"]), conc.val[e["v"]]) for e in model_state]
     if kind == "dict":
         return Deb822(dict(pairs))
@@ -122,19 +123,50 @@ def build(kind, model_state, conc):
     return d
 
 
-def apply_op(d, op, keys, val):
-    """returns (new object, result string)"""
-    from debian.deb822 import Deb822
+CLASSES = ["Deb822", "Deb822", "Packages", "Sources", "Dsc"]     # same mapping behaviour (no structured field names in WORDS)
+
+
+def cls_of(name):
+    import debian.deb822 as m
+    return getattr(m, name)
+
+
+def apply_op(d, op, keys, val, rng=None):
+    """returns (new object, result string).  API-surface audit (notes/API_SURFACE.md): every
+    public way of performing the operation is drawn at random - the model sees one action"""
+    import copy
+    import io
+    import pickle
+    pick = (lambda n: rng.randrange(n)) if rng is not None else (lambda n: 0)
+    cls = type(d)
     try:
         if op == "set":
-            d[keys[0]] = val
+            v = pick(3)
+            if v == 0:
+                d[keys[0]] = val
+            elif v == 1:
+                d.update({keys[0]: val})
+            else:
+                d.update([(keys[0], val)])
             return d, "ok"
         if op == "get":
-            return d, ("VAL", d[keys[0]])
+            v = pick(3)
+            if v == 0:
+                return d, ("VAL", d[keys[0]])
+            if v == 1:
+                r = d.get(keys[0], None)
+                if r is None:
+                    return d, "KeyError"
+                return d, ("VAL", r)
+            return d, ("VAL", d.get_as_string(keys[0]))
         if op == "has":
-            return d, "true" if keys[0] in d else "false"
+            v = pick(2)
+            return d, "true" if ((keys[0] in d) if v == 0 else (keys[0] in d.keys())) else "false"
         if op == "del":
-            del d[keys[0]]
+            if pick(2) == 0:
+                del d[keys[0]]
+            else:
+                d.pop(keys[0])
         elif op == "first":
             d.order_first(keys[0])
         elif op == "last":
@@ -144,15 +176,49 @@ def apply_op(d, op, keys, val):
         elif op == "after":
             d.order_after(keys[0], keys[1])
         elif op == "sort":
-            d.sort_fields()
+            v = pick(3)
+            if v == 0:
+                d.sort_fields()
+            elif v == 1:
+                d.sort_fields(key=None)
+            else:
+                d.sort_fields(key=lambda x: x.lower())
         elif op == "copy":
             before = observe_raw(d)
-            c = d.copy()
+            # copy.copy(d) is NOT used: Deb822Dict defines no __copy__, so the generic shallow copy
+            # shares the private key set and value dict with its source (observation recorded in
+            # DESIGN.md 10.4; the statement's "copying" is the documented copy() method)
+            v = pick(5)
+            if v in (0, 1):
+                c = d.copy()
+            elif v == 2:
+                c = copy.deepcopy(d)
+            elif v == 3:
+                c = pickle.loads(pickle.dumps(d))
+            else:
+                c = cls(d)
             if observe_raw(d) != before:
                 return c, "copy-changed-original"
             return c, "ok"
         elif op == "dumpparse":
-            return Deb822(d.dump()), "ok"
+            v = pick(7)
+            if v == 0:
+                return cls(d.dump()), "ok"
+            if v == 1:
+                return cls(d.dump().encode("utf-8")), "ok"
+            if v == 2:
+                return cls(d.dump().splitlines(True)), "ok"
+            if v == 3:
+                return cls(io.StringIO(d.dump())), "ok"
+            if v == 4:
+                buf = io.BytesIO()
+                d.dump(buf)
+                return cls(io.BytesIO(buf.getvalue())), "ok"
+            if v == 5:
+                buf = io.StringIO()
+                d.dump(buf, text_mode=True)
+                return cls(buf.getvalue()), "ok"
+            return cls(str(d)), "ok"
         else:
             raise AssertionError(op)
         return d, "ok"
@@ -203,7 +269,18 @@ def check_views(d, model_state, conc, universe):
 
 def run_path(start_kind, start_state, path, conc, rng, universe, deep=True):
     """replay one model behaviour; returns None or a message (verdict observables only)"""
-    d = build(start_kind, start_state, conc)
+    try:
+        return _run_path(start_kind, start_state, path, conc, rng, universe, deep)
+    except Exception as ex:
+        if not core.raised_by_code_under_test(ex):
+            raise
+        import traceback
+        return "unexpected %s from the library while observing the mapping: %s" % (
+            type(ex).__name__, traceback.format_exc().strip().splitlines()[-3:])
+
+
+def _run_path(start_kind, start_state, path, conc, rng, universe, deep=True):
+    d = build(start_kind, start_state, conc, rng.choice(CLASSES))
     exp0 = expected_obs(start_state, conc)
     if observe_raw(d) != exp0:
         return "step 0 (%s start): object shows %r, model %r" % (start_kind, observe_raw(d), exp0)
@@ -222,7 +299,7 @@ def run_path(start_kind, start_state, path, conc, rng, universe, deep=True):
         else:
             keys, val = [conc.any_key(rng, a[0])], None
         prev = d
-        d, res = apply_op(d, op, keys, val)
+        d, res = apply_op(d, op, keys, val, rng)
         if op in ("copy", "dumpparse") and d is not prev and rng.random() < 0.5:
             # both objects are in the same model state now: carry on with the SOURCE and retain
             # the copy instead (a copy must not read through to / share structure with its source)
@@ -320,7 +397,7 @@ def record_trace(rng, nnames, nops):
         k1 = rng.choice(list(spellings(base[i]).values()))
         k2 = rng.choice(list(spellings(base[j]).values()))
         v = rng.choice(values)
-        d, res = apply_op(d, op, [k1, k2], v)
+        d, res = apply_op(d, op, [k1, k2], v, rng)
         if isinstance(res, tuple):
             res = res[1]
         events.append({"op": op, "n": i + 1, "r": j + 1, "s": k1, "v": v, "res": res, "obs": proj(d)})
@@ -403,13 +480,14 @@ def run(ctx):
                 start, path = [], paths[e["_f"]] + [e]
             else:
                 start, path = e["from"], [e]
-            msg = run_path(kind, start, path, conc, rng, names)
+            pseed = rng.getrandbits(32)
+            msg = run_path(kind, start, path, conc, random.Random(pseed), names)
             nontrivial = e["from"] != e["to"] or e["res"] not in ("ok", "true", "false")
             ctx.case_seen(("edge", e["_f"], e["op"], skey(e["args"])), nontrivial)
             n_replayed += 1
             if msg:
                 ctx.violation({"kind": "path", "start_kind": kind, "start": start, "path": [strip(x) for x in path],
-                               "conc": conc.to_json()}, msg)
+                               "conc": conc.to_json(), "seed": pseed}, msg)
                 break
         if len(ctx.violations) >= 5:
             break
@@ -425,21 +503,23 @@ def run(ctx):
         kind = rng.choice(kinds[1:]) if start_key != g.init else "empty"
         path = g.walk(rng, start_key, wlen, weight=lambda x: 3 if x["from"] != x["to"] else 1)
         conc = Conc(rng, names, values)
-        msg = run_path(kind, g.states[start_key], path, conc, rng, names, deep=(w % 10 == 0))
+        pseed = rng.getrandbits(32)
+        msg = run_path(kind, g.states[start_key], path, conc, random.Random(pseed), names, deep=(w % 10 == 0))
         ctx.case_seen(("walk", w, start_key), True)
         n_replayed += 1
         if msg:
             ctx.violation({"kind": "path", "start_kind": kind, "start": g.states[start_key],
-                           "path": [strip(x) for x in path], "conc": conc.to_json()}, msg)
+                           "path": [strip(x) for x in path], "conc": conc.to_json(), "seed": pseed, "deep": (w % 10 == 0)}, msg)
     if not quick:
         n = 0
         for path in g.all_paths(3):
             conc = Conc(rng, names, values, canonical=True)
-            msg = run_path("empty", [], path, conc, rng, names, deep=False)
+            pseed = rng.getrandbits(32)
+            msg = run_path("empty", [], path, conc, random.Random(pseed), names, deep=False)
             n += 1
             if msg:
                 ctx.violation({"kind": "path", "start_kind": "empty", "start": [],
-                               "path": [strip(x) for x in path], "conc": conc.to_json()}, msg)
+                               "path": [strip(x) for x in path], "conc": conc.to_json(), "seed": pseed, "deep": False}, msg)
                 break
         ctx.evaluations += n
         n_replayed += n
@@ -448,10 +528,21 @@ def run(ctx):
 
     # 4. code -> spec: recorded histories over 8 names x 4 spellings validated by TLC
     ntr, nops = (400, 25) if quick else (6000, 40)
-    traces = [record_trace(rng, 8, nops) for _ in range(ntr)]
-    # size stress: many keys, long histories (bulk pre-fill via set operations)
-    for nn, no in ([(40, 120), (120, 300)] if quick else [(40, 120)] * 6 + [(120, 300)] * 6 + [(300, 700)] * 2):
-        traces.append(record_trace(rng, nn, no))
+    traces = []
+    # the last two sizes are the size stress: many keys, long histories
+    plan = [(8, nops)] * ntr + ([(40, 120), (120, 300)] if quick else [(40, 120)] * 6 + [(120, 300)] * 6 + [(300, 700)] * 2)
+    for nn, no in plan:
+        tseed = rng.getrandbits(32)
+        try:
+            traces.append(record_trace(random.Random(tseed), nn, no))
+        except Exception as ex:
+            if not core.raised_by_code_under_test(ex):
+                raise
+            import traceback
+            if len(ctx.violations) < 5:
+                ctx.violation({"kind": "record", "seed": tseed, "nnames": nn, "nops": no},
+                              "unexpected %s from the library while recording a history: %s"
+                              % (type(ex).__name__, traceback.format_exc().strip().splitlines()[-3:]))
     rejected, info = validate(ctx, traces)
     ctx.traces += n_replayed + len(traces)
     ctx.evaluations += len(traces)
@@ -474,7 +565,16 @@ def replay(ctx, case):
     import random
     if case["kind"] == "path":
         conc = Conc.from_json(case["conc"])
-        return run_path(case["start_kind"], case["start"], case["path"], conc, random.Random(0), sorted(conc.base))
+        return run_path(case["start_kind"], case["start"], case["path"], conc, random.Random(case.get("seed", 0)),
+                        sorted(conc.base), deep=case.get("deep", True))
+    if case["kind"] == "record":
+        try:
+            record_trace(random.Random(case["seed"]), case["nnames"], case["nops"])
+        except Exception as ex:
+            if not core.raised_by_code_under_test(ex):
+                raise
+            return "unexpected %s from the library while recording the history" % type(ex).__name__
+        return None
     if case["kind"] == "trace":
         # re-execute the recorded calls on the current tree and validate the new trace
         t = case["trace"]
